@@ -24,6 +24,8 @@ var run *evid.Run
 type canonCase struct {
 	Bytes evid.Hex `json:"bytes"`
 	How   string   `json:"how"`
+	// Prev: a frame that the same PHYPayload variable decoded before (a receive loop that reuses its variable)
+	Prev evid.Hex `json:"prev,omitempty"`
 }
 
 // inK1 is the known-finding class: data frame, FOptsLen > 0, FPort byte 0, empty FRMPayload.
@@ -36,9 +38,14 @@ func inK1(b []byte) bool {
 }
 
 // judge returns (accepted, violation text).
-func judge(in []byte) (bool, string) {
+func judge(in []byte) (bool, string) { return judgeAfter(in, nil) }
+
+func judgeAfter(in, prev []byte) (bool, string) {
 	b := append([]byte{}, in...)
 	var p lorawan.PHYPayload
+	if prev != nil {
+		_ = p.UnmarshalBinary(append([]byte{}, prev...))
+	}
 	if err := p.UnmarshalBinary(b); err != nil {
 		return false, "" // nothing is asserted about rejected inputs
 	}
@@ -53,8 +60,13 @@ func judge(in []byte) (bool, string) {
 	if err := q.UnmarshalBinary(append([]byte{}, out...)); err != nil {
 		return true, fmt.Sprintf("the re-encoding %x of an accepted frame is rejected: %v", out, err)
 	}
-	if !reflect.DeepEqual(p, q) {
+	if prev == nil && !reflect.DeepEqual(p, q) {
 		return true, fmt.Sprintf("decoding the re-encoding of %x gives a different frame: %+v vs %+v", in, p, q)
+	}
+	if prev != nil {
+		if out2, err := q.MarshalBinary(); err != nil || !bytes.Equal(out2, in) {
+			return true, fmt.Sprintf("decoding the re-encoding of %x and encoding again gives %x (err %v)", in, out2, err)
+		}
 	}
 	return true, ""
 }
@@ -63,7 +75,10 @@ func checkCanon(c canonCase) evid.Outcome {
 	if len(c.Bytes) > 0 && c.Bytes[0]&0x1c != 0 {
 		return evid.Outcome{Skip: true} // the property is stated for reserved MHDR bits zero
 	}
-	accepted, v := judge(c.Bytes)
+	accepted, v := judgeAfter(c.Bytes, c.Prev)
+	if v != "" && c.Prev != nil {
+		v = fmt.Sprintf("(decoded into a PHYPayload variable that had decoded %x before) %s", []byte(c.Prev), v)
+	}
 	mt := -1
 	if len(c.Bytes) > 0 {
 		mt = int(c.Bytes[0] >> 5)
@@ -155,7 +170,11 @@ func genCanon(t *rapid.T) canonCase {
 	if len(b) > 256 {
 		b = b[:256]
 	}
-	return canonCase{Bytes: b, How: how}
+	c := canonCase{Bytes: b, How: how}
+	if rapid.IntRange(0, 2).Draw(t, "reuse") == 0 {
+		c.Prev = gen.AnyFrame(t).Encode()
+	}
+	return c
 }
 
 func minInt(a, b int) int {
@@ -170,7 +189,7 @@ func TestProp(t *testing.T) {
 	defer r.Finish()
 	run = r
 	evid.Rapid(r, t, "canonical",
-		"rapid: byte strings of length 0..256 with the reserved MHDR bits zero: uniform random; uniform at the lengths the fixed-size message types accept; and structure-aware mutations of valid frames of all 8 MTypes (unchanged, truncated front/back, extended, one bit flipped, FOptsLen nibble overwritten, rejoin type byte overwritten, two frames spliced, FPort byte zeroed with/without cutting the payload, MType overwritten). Oracle: if UnmarshalBinary accepts b then MarshalBinary succeeds and returns exactly b, and decoding that again gives a deeply equal frame; nothing is asserted about rejected inputs. Known finding K1 (FOptsLen>0, FPort byte 0, empty FRMPayload: accepted but not encodable) is excluded by a predicate on the input bytes and counted. Non-trivial: an accepted input that is not an unmodified encoder-model output.",
+		"rapid: byte strings of length 0..256 with the reserved MHDR bits zero: uniform random; uniform at the lengths the fixed-size message types accept; and structure-aware mutations of valid frames of all 8 MTypes (unchanged, truncated front/back, extended, one bit flipped, FOptsLen nibble overwritten, rejoin type byte overwritten, two frames spliced, FPort byte zeroed with/without cutting the payload, MType overwritten). Oracle: if UnmarshalBinary accepts b then MarshalBinary succeeds and returns exactly b, and decoding that again gives a deeply equal frame; nothing is asserted about rejected inputs; a third of the cases decode into a PHYPayload variable that decoded another valid frame before (a receive loop reusing its variable), with the same oracle. Known finding K1 (FOptsLen>0, FPort byte 0, empty FRMPayload: accepted but not encodable) is excluded by a predicate on the input bytes and counted. Non-trivial: an accepted input that is not an unmodified encoder-model output.",
 		400000, 16000000, genCanon, checkCanon)
 
 	// the committed fuzz corpus is replayed in both tiers (the fuzz engine itself runs in the thorough tier only)
